@@ -99,7 +99,7 @@ pub fn run(args: &Args) -> i32 {
     }
     let n_pairs = pairs.len();
     let next = AtomicU64::new(0);
-    let threads = std::thread::available_parallelism().map(|x| x.get()).unwrap_or(8).min(16);
+    let threads = crate::quiet::threads();
     std::thread::scope(|s| {
         for _ in 0..threads {
             s.spawn(|| loop {
